@@ -246,7 +246,10 @@ func c11BinValues(t *testing.T, c *ev.Collector, maxLen int) {
 
 // c11Helpers enumerates every byte string of length <= maxLen through
 // EncodeBinaryHeader / DecodeBinaryHeader (padded and unpadded input).
-func c11Helpers(c *ev.Collector, maxLen int) {
+func c11Helpers(c *ev.Collector, maxLen int) { binHelpers(c, "TestC11", maxLen) }
+
+// binHelpers is shared by C11 and C18 (test names the reporting explorer).
+func binHelpers(c *ev.Collector, test string, maxLen int) {
 	shard, shards := ev.Shard()
 	var n int64
 	check := func(b []byte) {
@@ -254,16 +257,16 @@ func c11Helpers(c *ev.Collector, maxLen int) {
 		enc := connect.EncodeBinaryHeader(b)
 		dec, err := connect.DecodeBinaryHeader(enc)
 		if err != nil || !bytes.Equal(dec, b) {
-			c.Violation("TestC11", "bin-helper-roundtrip", "unpadded", []string{"helper"}, fmt.Sprintf("%x", b), "DecodeBinaryHeader(EncodeBinaryHeader(%x)=%q) = %x, %v", b, enc, dec, err)
+			c.Violation(test, "bin-helper-roundtrip", "unpadded", []string{"helper"}, fmt.Sprintf("%x", b), "DecodeBinaryHeader(EncodeBinaryHeader(%x)=%q) = %x, %v", b, enc, dec, err)
 		}
 		padded := base64.StdEncoding.EncodeToString(b)
 		dec, err = connect.DecodeBinaryHeader(padded)
 		if err != nil || !bytes.Equal(dec, b) {
-			c.Violation("TestC11", "bin-helper-roundtrip", "padded", []string{"helper"}, fmt.Sprintf("%x", b), "DecodeBinaryHeader(padded %q) = %x, %v; want %x", padded, dec, err, b)
+			c.Violation(test, "bin-helper-roundtrip", "padded", []string{"helper"}, fmt.Sprintf("%x", b), "DecodeBinaryHeader(padded %q) = %x, %v; want %x", padded, dec, err, b)
 		}
 		for i := 0; i < len(enc); i++ {
 			if ch := enc[i]; ch < 0x21 || ch > 0x7e {
-				c.Violation("TestC11", "bin-helper-header-safe", "unsafe-byte", []string{"helper"}, fmt.Sprintf("%x", b), "EncodeBinaryHeader(%x) contains byte %#x", b, ch)
+				c.Violation(test, "bin-helper-header-safe", "unsafe-byte", []string{"helper"}, fmt.Sprintf("%x", b), "EncodeBinaryHeader(%x) contains byte %#x", b, ch)
 			}
 		}
 	}
